@@ -149,10 +149,19 @@ def run(ctx):
     cases = []
     for name, src in SEEDS.items():
         cases.append((name, "main.sw" if src.startswith("contract") else "lib.sw", src, "seed", name))
-    ntpl = 24 if ctx.quick else 120
+    ntpl = 12 if ctx.quick else 120
     for tname, files in TEMPLATES.items():
         entry = "main.sw" if "main.sw" in files else "lib.sw"
         cases.append((tname, entry, dict(files), "template", tname))
+        # systematic: every field name inside every `Name { ... }` group renamed to a non-existing one
+        nsys = 0
+        for victim in sorted(files):
+            for m in re.finditer(r"\b[A-Z][A-Za-z0-9_]*(?:<[^<>{}]*>)?\s*\{([^{}]*)\}", files[victim]):
+                for n in re.finditer(r"\b[a-z_][a-z0-9_]*\b", m.group(1)):
+                    if n.group(0) in ("pub", "fn", "self", "true", "false", "u64", "u8", "bool", "mut"): continue
+                    a, b = m.start(1) + n.start(), m.start(1) + n.end()
+                    f2 = dict(files); f2[victim] = files[victim][:a] + "zz" + files[victim][b:]
+                    cases.append(("%s_s%d" % (tname, nsys), entry, f2, "brace_field_sys", tname)); nsys += 1
         for k in range(ntpl):
             f2 = dict(files)
             victim = ctx.rng.choice(sorted(f2))
